@@ -78,8 +78,8 @@ Proof. vm_compute. reflexivity. Qed.
 (* ---- over whole histories of one connection (Model/Stmts.v: the statement table with its long-data buffers) ---------------- *)
 
 (* Any history of fewer than 2^32 prepared-statement commands on a fresh connection; somewhere in it a command that uses
-   up the long data of statement id - its PREPARE, a successful EXECUTE (whatever the application then answers: the
-   buffers are dropped before it is called), a RESET -; after it any commands that do not address id except by sending
+   up the long data of statement id - its PREPARE, an EXECUTE (accepted - whatever the application then answers: the
+   buffers are dropped before it is called - or refused while it is parsed: long data belongs to one attempt), a RESET -; after it any commands that do not address id except by sending
    long data.  Then the statement is there and its buffers hold exactly what those long-data commands sent for it, per
    parameter, in order of arrival: nothing from before the consuming command, nothing that was sent for another statement. *)
 Theorem c06_long_data_since_last_use : forall qa ftab pre o mid id,
